@@ -1710,6 +1710,183 @@ example :
     ((send s 1 [8, 9] false).1.dials - s.dials, (send s 1 [8, 9] false).1.conns.length) = (2, 3) := by decide
 
 
+/-! ### the receive loop: which errors end it, what is dispatched, what is left in the table -/
+
+theorem recvLoop_cons_go (x : Round) (rest : List Round) (h : x.ends = none) :
+    recvLoop (x :: rest) =
+      { dispatched := x.msg?.toList ++ (recvLoop rest).dispatched, exit := (recvLoop rest).exit } := by
+  cases x with
+  | mk pa cl r =>
+    cases pa <;> cases cl <;> cases r with
+    | msg m => first | (simp [Round.ends] at h; done) | simp [recvLoop, Round.msg?]
+    | err c =>
+      first
+      | (simp [Round.ends] at h; done)
+      | (have hc : c.fatal = false := by
+           cases hf : c.fatal
+           · rfl
+           · simp [Round.ends, hf] at h
+         simp [recvLoop, Round.msg?, hc])
+
+theorem recvLoop_cons_end (x : Round) (rest : List Round) (e : Exit) (h : x.ends = some e) :
+    recvLoop (x :: rest) = { dispatched := [], exit := some e } := by
+  cases x with
+  | mk pa cl r =>
+    cases pa
+    · cases cl
+      · cases r with
+        | msg m => simp [Round.ends] at h
+        | err c =>
+          cases hf : c.fatal
+          · simp [Round.ends, hf] at h
+          · have : e = .reported := by simpa [Round.ends, hf] using h.symm
+            simp [recvLoop, hf, this]
+      · have : e = .closed := by simpa [Round.ends] using h.symm
+        simp [recvLoop, this]
+    · have : e = .paused := by simpa [Round.ends] using h.symm
+      simp [recvLoop, this]
+
+/-- **the receive loop is the filter of the arrivals up to the first ending iteration** (refinement
+to the small specification `recvSpec`): for every sequence of `Receive` results and router flags,
+exactly the packets that arrive before the first iteration that ends the loop are dispatched, in
+order, none twice, none dropped; temporary errors (undecodable frame, `ErrCanceled`) are skipped; the
+loop returns at that iteration and for that iteration's reason; it does not return otherwise. -/
+theorem c09_recvloop_is_filter_until_first_end (rs : List Round) : recvLoop rs = recvSpec rs := by
+  induction rs with
+  | nil => rfl
+  | cons x rest ih =>
+    cases he : x.ends with
+    | none =>
+      rw [recvLoop_cons_go x rest he, ih]
+      simp only [recvSpec, List.takeWhile_cons, List.dropWhile_cons, he, Option.isNone_none, if_true]
+      cases hm : x.msg? <;> simp [hm]
+    | some e =>
+      rw [recvLoop_cons_end x rest e he]
+      simp [recvSpec, he]
+
+/-- **a fatal error is reported**: when the first iteration that can end the loop is a `Receive`
+error of class time-out / closed / EOF / unknown on an open, unpaused router, the loop returns through
+the error handlers, having dispatched every packet that arrived before — whatever follows. -/
+theorem c09_recvloop_fatal_reported (pre post : List Round) (c : ErrClass) (hc : c.fatal = true)
+    (hpre : ∀ x ∈ pre, x.ends = none) :
+    recvLoop (pre ++ { r := .err c } :: post) =
+      { dispatched := pre.filterMap Round.msg?, exit := some .reported } := by
+  induction pre with
+  | nil => simp [recvLoop, hc]
+  | cons x rest ih =>
+    have hx := hpre x (List.mem_cons_self ..)
+    have := ih (fun y hy => hpre y (List.mem_cons_of_mem _ hy))
+    rw [List.cons_append, recvLoop_cons_go x _ hx, this]
+    cases hm : x.msg? <;> simp [hm]
+
+/-- **nothing else ends it** (the loop's liveness): as long as no iteration has a reason to end
+the loop it is still receiving, and every packet that arrived has been dispatched. -/
+theorem c09_recvloop_keeps_going (rs : List Round) (h : ∀ x ∈ rs, x.ends = none) :
+    recvLoop rs = { dispatched := rs.filterMap Round.msg?, exit := none } := by
+  induction rs with
+  | nil => rfl
+  | cons x rest ih =>
+    rw [recvLoop_cons_go x rest (h x (List.mem_cons_self ..)), ih (fun y hy => h y (List.mem_cons_of_mem _ hy))]
+    cases hm : x.msg? <;> simp [hm]
+
+/-- the loop has returned iff some iteration had a reason -/
+theorem c09_recvloop_exit_iff (rs : List Round) :
+    (recvLoop rs).exit.isSome = true ↔ ∃ x ∈ rs, x.ends.isSome = true := by
+  induction rs with
+  | nil => simp [recvLoop]
+  | cons x rest ih =>
+    cases he : x.ends with
+    | none =>
+      rw [recvLoop_cons_go x rest he]
+      simp [ih, he]
+    | some e =>
+      rw [recvLoop_cons_end x rest e he]
+      simp [he]
+
+/-- **error translation**: whatever the operating system reports for a read or a write, the class
+`handleError` gives it ends the receive loop with a report — except an error whose text says
+`canceled` (and neither `use of closed` nor `broken pipe`), which is `ErrCanceled` and skipped. -/
+theorem c09_handleError_fatal_unless_canceled (e : NetErr) :
+    (handleError e).fatal = true ∨
+    (handleError e = .canceled ∧ e.cancelText = true ∧ e.closedText = false ∧ e.pipeText = false) := by
+  cases e with
+  | mk a b c d f g h => cases a <;> cases b <;> cases c <;> cases d <;> cases f <;> cases g <;> cases h <;> decide
+
+/-- a time-out is recognised exactly when nothing in the error's text matched first and the error is
+a `net.Error` whose `Timeout()` holds; a closed connection is recognised by its text alone -/
+theorem c09_handleError_classes (e : NetErr) :
+    (handleError e = .timeout ↔
+      e.closedText = false ∧ e.pipeText = false ∧ e.cancelText = false ∧ e.isEOF = false ∧
+      e.eofText = false ∧ e.netErr = true ∧ e.timeout = true) ∧
+    (handleError e = .closed ↔ e.closedText = true ∨ e.pipeText = true) ∧
+    handleError e ≠ .other := by
+  cases e with
+  | mk a b c d f g h => cases a <;> cases b <;> cases c <;> cases d <;> cases f <;> cases g <;> cases h <;> decide
+
+/-- everything a peer can do to a connection other than sending frames — closing between or inside
+frames, resetting, going silent, announcing an oversized frame — ends the survivor's receive loop
+with a report; a frame, decodable or not, does not -/
+theorem c09_peer_events_end_the_loop (ev : PeerEv) :
+    ({ r := ev.recv } : Round).ends =
+      match ev with
+      | .good _ | .garbage => none
+      | _ => some .reported := by
+  cases ev <;> rfl
+
+/-- **no entry outlives its receive loop**: when the loop of a registered connection has returned —
+for whatever reason — exactly that connection has left the table; the handlers were called (each
+once, with the lost peer) iff the reason was a fatal error; a loop that is still receiving changes
+nothing. -/
+theorem c09_loop_end_leaves_no_entry (s : St) (hf : FreshIds s) (c : Conn) (hc : c ∈ s.conns) (e : Option Exit) :
+    (∀ x, x ∈ (endLoop s c.id e).conns ↔ x ∈ s.conns ∧ (e.isSome = true → x.id ≠ c.id)) ∧
+    (endLoop s c.id e).calls =
+      s.calls ++ (if e = some .reported then s.handlers.map (·, c.peer) else []) ∧
+    (endLoop s c.id e).up = s.up ∧ (endLoop s c.id e).delivered = s.delivered := by
+  have hfind : s.conns.find? (·.id == c.id) = some c := by
+    cases hf' : s.conns.find? (·.id == c.id) with
+    | none =>
+      have := List.find?_eq_none.mp hf' c hc
+      simp at this
+    | some c' =>
+      have hm := List.mem_of_find?_eq_some hf'
+      have hid : c'.id = c.id := by simpa using List.find?_some hf'
+      rw [eq_of_id_eq hf.2 hm hc hid]
+  have hrem : (step s (.remove c.id)).1 = { s with conns := removeSwap s.conns c } := by
+    simp only [step, hfind]
+  have hmem := fun x => mem_removeSwap s.conns c hc hf.2 x
+  cases e with
+  | none => simp [endLoop]
+  | some ex =>
+    cases ex with
+    | reported =>
+      have h := c09_handlers_told s hf c hc
+      simp only [endLoop]
+      exact ⟨fun x => by rw [h.2.1 x]; simp, by simpa using h.1, h.2.2.1, h.2.2.2.1⟩
+    | paused =>
+      simp only [endLoop, hrem]
+      exact ⟨fun x => by rw [hmem x]; simp, by simp⟩
+    | closed =>
+      simp only [endLoop, hrem]
+      exact ⟨fun x => by rw [hmem x]; simp, by simp⟩
+
+/-- the loop and the table together, on a worked stream: two frames, an undecodable one, a frame,
+then the peer resets — three packets dispatched, both handlers told about peer 1, the entry gone;
+what the peer might have sent afterwards plays no role -/
+example :
+    let s := run s0 [.addHandler 10, .addHandler 11, .accept 1, .accept 2]
+    let o := recvLoop ([PeerEv.good 1, .good 2, .garbage, .good 3, .reset, .good 4].map fun e => { r := e.recv })
+    let s' := endLoop s 0 o.exit
+    o.dispatched = [1, 2, 3] ∧ o.exit = some .reported ∧ s'.calls = [(10, 1), (11, 1)] ∧
+    s'.conns = [{ id := 1, peer := 2, alive := true }] := by decide
+
+/-- a paused router: the loop returns at its next `Receive` without a report, the entry goes -/
+example :
+    let s := run s0 [.addHandler 10, .accept 1]
+    let o := recvLoop [{ r := .msg 1 }, { paused := true, r := .err .closed }]
+    o = { dispatched := [1], exit := some .paused } ∧ (endLoop s 0 o.exit).calls = [] ∧
+    (endLoop s 0 o.exit).conns = [] := by decide
+
+
 /-! ### the code regions the model stands for
 Regenerated from /repo's source on every run (`harness/cmd/astfacts` → `OnetVerif/Shapes.lean`): the
 calls that matter for synchronisation and data flow, the lock regions and (for decision logic) the
